@@ -334,21 +334,66 @@ def emission_corpus(rng, quick=True):
             instname=rng.choice([None, "u", "buf"]), regular=(k % 4 != 3))))
     for kind in (("vivado", "trellis", "quartus") if quick else ("vivado", "ise", "trellis", "diamond", "quartus", "icestorm")):
         out.append(("platform/%s" % kind, PLATFORM_DESIGN % dict(kind=kind)))
-    # All black boxes of one module are of the SAME cell here: with different cells the order of the `[CELL]` lines
-    # of the hierarchy comment depends on heap addresses on the unchanged tree (finding C02-hierarchy-order, see
-    # `hierarchy_witness`; reported, not yet listed in known_findings.json).
+    # several black boxes of DIFFERENT cells in one module: the `[CELL]` lines of the hierarchy comment are compared too
+    # (fixed finding C02-hierarchy-order: they were sorted by heap address).
+    cells = ["PLLX", "BUFA", "IOBUFZ", "BUFA", "DNA", "CARRY9", "AND2"]
     for k in range(1 if quick else 3):
-        out.append(("soc/%d" % k, SOC_DESIGN % dict(csrw=rng.choice([8, 32]), cells=[rng.choice(["BUFA", "DNA"])] * rng.randint(3, 6))))
+        rng.shuffle(cells)
+        out.append(("soc/%d" % k, SOC_DESIGN % dict(csrw=rng.choice([8, 32]), cells=list(cells))))
     return out
 
 
 def hierarchy_witness():
-    """Finding witness (NOT part of probes()): several black boxes of different cells in one module of a SoC; the
-    `[CELL]` lines of the hierarchy comment are sorted by `str(instance)`, i.e. by heap address."""
+    """Two-process witness of C02-hierarchy-order: several black boxes of different cells in one module of a SoC,
+    generated under the PYTHONHASHSEED values of HASHSEEDS."""
     cells = ["PLLX", "BUFA", "IOBUFZ", "BUFA", "DNA", "CARRY9", "AND2"]
     corpus = [("soc/hierarchy-witness", SOC_DESIGN % dict(csrw=8, cells=cells))]
     res = collect(start_corpus_procs(corpus))
     return corpus_differences(corpus, res)
+
+
+def hierarchy_case(rng, ncells=8, trials=12):
+    """Deterministic in-process witness: a module with `ncells` black boxes of pairwise different cells, built so that
+    the heap-address order of the Instance objects differs from their creation (DUID) order: same-sized junk Instances
+    are created first and freed in ascending address order (pymalloc's free lists are LIFO, so the design's instances
+    then land on descending addresses); the forcing is *checked* on the objects (str-order != DUID order), and other
+    freeing patterns are tried until it holds.
+    Returns (forced, cells in the order of the `[CELL]` lines, [(cell, duid)] in creation order, text)."""
+    import gc
+    from migen import Module, Signal
+    from migen.fhdl.specials import Instance
+    from litex.gen.fhdl.hierarchy import LiteXHierarchyExplorer
+    last = None
+    for trial in range(trials):
+        gc.collect()
+        junk = [Instance("JUNK%d" % k) for k in range(4 * ncells)]
+        order = sorted(range(len(junk)), key=lambda k: id(junk[k]))
+        if trial % 3 == 1:
+            order = order[::2] + order[1::2][::-1]
+        elif trial % 3 == 2:
+            rng.shuffle(order)
+        victims = [junk[k] for k in order[:ncells + trial]]
+        ids = set(map(id, victims))
+        junk = [x for x in junk if id(x) not in ids]
+        while victims:                      # free one by one, in the chosen order
+            victims.pop(0)
+        top = Module()
+        sub = Module()
+        top.submodules.sub = sub
+        insts = []
+        for k in range(ncells):
+            inst = Instance("CELL%c" % (65 + (k * 5) % ncells))
+            sub.specials += inst
+            insts.append(inst)
+        top.get_fragment()
+        text = LiteXHierarchyExplorer(top=top, depth=None, with_colors=False).get_hierarchy()
+        cells = re.findall(r"\[(CELL\w)\]", text)
+        forced = [x.of for x in sorted(insts, key=str)] != [x.of for x in sorted(insts, key=lambda x: x.duid)]
+        last = (forced, cells, [(x.of, x.duid) for x in insts], text)
+        del junk
+        if forced:
+            return last
+    return last
 
 
 BATCH_CHILD = r'''
